@@ -300,6 +300,9 @@ fn direct_sequences<V: TV>(ctx: &Ctx, m: usize, values: &[V], depth: usize, stat
     loop {
         let acts: Vec<Act> = idx.iter().map(|i| alphabet[*i].clone()).collect();
         let (viol, obs) = run_sequence::<V>(m, values, &acts);
+        if stats.0 % 40_000 == 7 {
+            ctx.sample(json!({"tracker": V::name(), "m": m, "sequence_from_new": acts_to_json(&acts), "result": obs}));
+        }
         stats.0 += 1;
         stats.1 += depth as u64;
         if viol && !failed {
